@@ -58,6 +58,25 @@ let dispatch (fields : string list) : string =
            (match spec_msgs p (z_of_string ch) (z_of_string dev) (ints_of_field args) (text_of_field txt) with
             | None -> "NODOMAIN"
             | Some ms -> string_of_items (spec_items (z_of_string time) ms)))
+  | ["presc"; name] ->
+      (* which prescription (CmdSpec) a spelling falls under *)
+      let z = string_of_z in
+      (match prescription_of (text_of_field name) with
+       | None -> "NONE"
+       | Some p ->
+           (match p with
+            | PController n -> "Controller," ^ z n
+            | PControlChange -> "ControlChange"
+            | PProgram -> "Program"
+            | PTempo -> "Tempo" | PTimeSig -> "TimeSig" | PText t -> "Text," ^ z t | PPort -> "Port"
+            | PBend -> "Bend" | PBendSmall -> "BendSmall"
+            | PRpn (m, l) -> "Rpn," ^ z m ^ "," ^ z l | PNrpn (m, l) -> "Nrpn," ^ z m ^ "," ^ z l
+            | PRpnDirect -> "RpnDirect" | PNrpnDirect -> "NrpnDirect"
+            | PFixedSysEx pl -> "FixedSysEx," ^ field_of_bytes pl
+            | PMasterVolume -> "MasterVolume" | PMasterBalance -> "MasterBalance"
+            | PGsEffect a -> "GsEffect," ^ z a | PGsEffectDirect -> "GsEffectDirect"
+            | PGsRhythm -> "GsRhythm" | PGsScaleTuning -> "GsScaleTuning"))
+  | ["roland_ok"; bytes] -> if roland_ok (bytes_of_field bytes) then "1" else "0"
   | ["sysfunc_table"] ->
       let rows = List.map (fun r -> (string_of_name r.sf_name,
                                      Printf.sprintf "%s,%s,%s,%s,%s" (string_of_name r.sf_name) (string_of_name (ttype_name r.sf_type))
